@@ -49,6 +49,24 @@ func runBatchChild(bc BatchCase) (*execgen.BatchResult, string, error) {
 
 func raceBuild() bool { return raceEnabled }
 
+// FX7: on the VM every execution that finds program.compiledProgram == nil on a program served by the
+// host's program cache compiles it and stores the result into the SHARED *runtime.Program
+// (vmEnvironment.loadProgram), and compilation (desugar) writes into the shared Elaboration.
+func fx7StillFails() bool {
+	if !raceBuild() {
+		return true // cannot be observed without the race detector; keep reporting it
+	}
+	b := execgen.GenBatch(evid.Rand(7), 24)
+	for k := 0; k < 3; k++ {
+		res := execgen.RunChild(execgen.Job{Mode: execgen.ModeBatch, Batch: &execgen.BatchJob{Batch: b, Engine: int(host.VM), Goroutines: 8, Seed: int64(k), Repeat: 4}},
+			execgen.ChildOpts{GoMaxProcs: 16, Timeout: 10 * time.Minute})
+		if (strings.Contains(res.Output, "WARNING: DATA RACE") && strings.Contains(res.Output, "(*vmEnvironment).loadProgram")) || strings.Contains(res.Output, "concurrent map") {
+			return true
+		}
+	}
+	return false
+}
+
 func TestC36(t *testing.T) {
 	rec := evid.Start(t, "C36", "batch = 3 shared contracts + 8..64 generated programs importing them; per batch a fresh child process runs the programs concurrently (2..16 goroutines, shared program cache, random order, GOMAXPROCS {2,4,16}, several rounds) and then sequentially; "+
 		"per program the concurrent outcome trace must equal the sequential one and the race detector must stay silent; non-trivial = the program imports a shared contract and ran concurrently with >= 1 other program; distinct by (program source, engine, goroutines, GOMAXPROCS)")
@@ -101,6 +119,11 @@ func TestC36(t *testing.T) {
 		}
 	}
 
+	fx7 := rec.Known("FX7")
+	if fx7 {
+		rec.ReportKnown("FX7", fx7StillFails())
+	}
+
 	rnd := evid.Rand(36)
 	nBatches := evid.N(20, 400)
 	type jobT struct {
@@ -121,7 +144,8 @@ func TestC36(t *testing.T) {
 		gmp := []int{2, 4, 16}[rnd.Intn(3)]
 		seed := rnd.Int63()
 		eng := host.Engines[b%len(host.Engines)]
-		jobs = append(jobs, jobT{BatchCase{Job: execgen.BatchJob{Batch: batch, Engine: int(eng), Goroutines: g, Seed: seed, Repeat: evid.N(3, 6)}, GoMaxProcs: gmp}})
+		jobs = append(jobs, jobT{BatchCase{Job: execgen.BatchJob{Batch: batch, Engine: int(eng), Goroutines: g, Seed: seed, Repeat: evid.N(3, 6),
+			Warm: fx7 && eng != host.Interp}, GoMaxProcs: gmp}})
 	}
 	type outT struct {
 		br  *execgen.BatchResult
@@ -143,6 +167,9 @@ func TestC36(t *testing.T) {
 			}
 			rec.Class("program:" + p.Name)
 			rec.Class("outcome:" + o.br.Classes[i])
+		}
+		if j.bc.Job.Warm {
+			rec.Excluded("FX7")
 		}
 		rec.Class(fmt.Sprintf("engine:%s", eng))
 		rec.Class(fmt.Sprintf("gomaxprocs:%d", j.bc.GoMaxProcs))
